@@ -659,6 +659,15 @@ class UnionProxy:
     def __getattr__(self, attr: str) -> Any:
         return getattr(self.__target__, attr)
 
+    def __eq__(self, other: object) -> bool:
+        # A member of a union compares (and hashes) like the structure it stands for
+        if isinstance(other, UnionProxy):
+            other = other.__target__
+        return self.__target__ == other
+
+    def __hash__(self) -> int:
+        return hash(self.__target__)
+
     def __setattr__(self, attr: str, value: Any) -> None:
         setattr(self.__target__, attr, value)
         self.__union__._rebuild(self.__attr__)
